@@ -45,5 +45,5 @@ extern "C" void vp_thr_qrw_re(queuing_rw_mutex* m, queuing_rw_mutex::scoped_lock
   if (r2 != VP_NONE) { vp_cycle(tid); vp_rw_cycle(l, m, tid, r2); }
   vp_done(tid);
 }
-extern "C" int vp_qrw_fresh(queuing_rw_mutex* m) { queuing_rw_mutex::scoped_lock l; bool ok = l.try_acquire(*m, true); if (ok) l.release(); return ok; }
+extern "C" int vp_qrw_fresh(queuing_rw_mutex* m, queuing_rw_mutex::scoped_lock* node) { queuing_rw_mutex::scoped_lock& l = *new (node) queuing_rw_mutex::scoped_lock; bool ok = l.try_acquire(*m, true); if (ok) l.release(); return ok; }
 extern "C" unsigned long vp_qrw_word(queuing_rw_mutex* m) { return (unsigned long)m->q_tail.load(std::memory_order_relaxed); }
